@@ -167,7 +167,6 @@ func (s *LinearState) Load(ctx *Context) error {
 
 func (s *LinearState) Add(ctx *Context, id string, x Map) (string, error) {
 	Log(DEBUG, ctx, "LinearState.Add", "state", s.Name, "x", x, "id", id)
-	delete(s.cachedRules, id)
 	timer := NewTimer(ctx, "LinearState.Add")
 	defer timer.Stop()
 
@@ -183,20 +182,28 @@ func (s *LinearState) Add(ctx *Context, id string, x Map) (string, error) {
 		return id, err
 	}
 
+	// Storage and memory change under one lock, so that concurrent
+	// changes to an id reach both in the same order.
+	s.slock(ctx, false)
+	defer s.sunlock(ctx, false)
+	delete(s.cachedRules, id)
+
 	pair := &Pair{[]byte(id), bs}
 	if err = s.store.Add(ctx, s.Name, pair); err != nil {
 		return id, err
 	}
 
 	if s.addHook != nil {
-		if err := s.addHook(ctx, s, id, m, ctx.GetLoc().loading); err != nil {
+		// The hook runs with the lock held (as with IndexedState).
+		s.withPrivilege(ctx)
+		err := s.addHook(ctx, s, id, m, ctx.GetLoc().loading)
+		s.withoutPrivilege(ctx)
+		if err != nil {
 			Log(ERROR, ctx, "LinearState.Add", "state", s.Name, "error", err, "when", "addHook", "id", id)
 			return "", err
 		}
 	}
 
-	// Maybe protect the store (above), too.
-	s.slock(ctx, false)
 	if _, isRule := m["rule"]; isRule {
 		if _, have := s.Facts[id]; have {
 			// Hope we're really replacing a rule.
@@ -204,7 +211,6 @@ func (s *LinearState) Add(ctx *Context, id string, x Map) (string, error) {
 		}
 	}
 	s.Facts[id] = RawFact{m, bs}
-	s.sunlock(ctx, false)
 
 	return id, nil
 }
@@ -228,17 +234,18 @@ func (s *LinearState) Rem(ctx *Context, id string) (bool, error) {
 
 func (s *LinearState) rem(ctx *Context, id string, lock bool) (bool, error) {
 	Log(DEBUG, ctx, "LinearState.rem", "id", id)
+	// Storage and memory change under one lock, so that concurrent
+	// changes to an id reach both in the same order.
+	if lock {
+		s.slock(ctx, false)
+		defer s.sunlock(ctx, false)
+	}
 	delete(s.cachedRules, id)
 	_, err := s.store.Remove(ctx, s.Name, []byte(id))
 	// ToDo: Consider what's returned.
 	if err != nil {
 		Log(ERROR, ctx, "LinearState.rem", "id", id, "error", err)
 		return false, err
-	}
-	// Maybe protect the store (above), too.
-	if lock {
-		s.slock(ctx, false)
-		defer s.sunlock(ctx, false)
 	}
 	_, had := s.Facts[id]
 	if had {
@@ -449,9 +456,8 @@ func (s *LinearState) FindCachedRules(ctx *Context, event Map) (map[string]*Rule
 
 func (s *LinearState) Clear(ctx *Context) error {
 	Log(INFO, ctx, "LinearState.Clear", "name", s.Name)
-	_, err := s.store.Clear(ctx, s.Name)
-	// Maybe protect the store (above), too.
 	s.slock(ctx, false)
+	_, err := s.store.Clear(ctx, s.Name)
 	s.Facts = make(map[string]RawFact)
 	s.cachedRules = make(map[string]*Rule)
 	s.sunlock(ctx, false)
@@ -460,9 +466,8 @@ func (s *LinearState) Clear(ctx *Context) error {
 
 func (s *LinearState) Delete(ctx *Context) error {
 	Log(DEBUG, ctx, "LinearState.Delete", "name", s.Name)
-	err := s.store.Delete(ctx, s.Name)
-	// Maybe protect the store (above), too.
 	s.slock(ctx, false)
+	err := s.store.Delete(ctx, s.Name)
 	s.Facts = make(map[string]RawFact)
 	s.cachedRules = make(map[string]*Rule)
 	s.sunlock(ctx, false)
